@@ -104,6 +104,8 @@ def cases(tier, seed):
     oc = op_cases(tier)
     for i in range(0, len(oc), PACK):
         out.append({"kind": "oppack", "cases": oc[i:i + PACK]})
+    for i in range(0, len(oc), PACK):
+        out.append({"kind": "oppack", "cases": oc[i:i + PACK], "refs": True})
     # (a) graphs
     gs = graphs.graphs(2, 1, req_flags=(0,)) if tier == "quick" else graphs.graphs(2, 1)
     if tier != "quick":
@@ -179,7 +181,8 @@ def run_case(case):
                 "nontrivial_multi": True, "outcome": "fields:" + ("finding" if fs else "ok"),
                 "sample": {"fields": [fields.describe(c) for c in case["cases"][:3]], "stats": stats}}
     if k == "oppack":
-        fs = bisect(case["cases"], lambda cs: ops.build_doc(cs)[0], lambda c: "op|" + ops.describe(c), stats)
+        refs = bool(case.get("refs"))
+        fs = bisect(case["cases"], lambda cs: ops.build_doc(cs, refs=refs)[0], lambda c: "op|" + ops.describe(c) + ("|via-component-refs" if refs else ""), stats)
         return {"findings": fs, "evals": stats["generations"], "nontrivial": ["op|" + ops.describe(c) for c in case["cases"]],
                 "nontrivial_multi": True, "outcome": "ops:" + ("finding" if fs else "ok"),
                 "sample": {"ops": [ops.describe(c) for c in case["cases"][:3]], "stats": stats}}
